@@ -99,6 +99,11 @@ theorem C13_clearing_timeout_restores_default (md : Mod) (h : md.batchInf = true
   simp [h]
 
 
+/-- descriptor events are always high priority: the registry forces the priority of a descriptor source whatever was asked
+for, so by `C13_high_fires` its event is handed over at once, in front of nothing and behind everything already accumulated -/
+theorem C13_descriptor_sources_are_high (x : Src) (h : x.kind = .fd) : (forceHigh x).prio = .high := by
+  unfold forceHigh; simp [h]
+
 /-- tie A: the guard prefixes of the entry points this property is about, re-extracted from the source on every run,
 are the ones the model transcribes (`Lm.Inst.CoreTie`) -/
 theorem C13_guards_in_source :
